@@ -4,8 +4,9 @@
  *  performs max(1, floor((a - L)/tick)) tick steps (wheel_cascade A2), each releasing one level-0 bucket WITHOUT a deadline test
  *  (wheel_cascade R1/K1), and a level-0 entry sits exactly k = floor(x/tick) buckets ahead, x = the delay given to insertEntry
  *  (wheel_insert W1). It can therefore be released as early as L + (k+1)*tick. "At most one tick early" for every tick phase needs
- *        x >= deadline - L - tick                                                   (Q3 / Q5)
- *  i.e. the delay used for the bucket computation must be measured from L, not from the moment schedule() happens to be called. */
+ *        x >= deadline - L - tick      or      delay <= tick (a release can never precede the schedule() call itself)      (Q3 / Q5)
+ *  i.e. the delay used for the bucket computation must be measured from L, not from the moment schedule() happens to be called.
+ *  (Since (k+1)*tick can be as small as x + 1, the condition is also necessary up to one clock unit.) */
 #define SCHED_STATE \
   TimingWheel W; TimerEntry e; int64_t delay = nondet_i64(); \
   IORA_TRUE = 1; G_ins_calls = 0; G_alloc_entry = &e; G_wheel_locks = 0; \
@@ -22,7 +23,7 @@ void h_schedule(void)
   IORA_CANARY("h_schedule: returns");
   /* Q1 */ __CPROVER_assert(e.id == id && e.callback == cb && e.deadline - delay >= L && e.deadline - delay <= ((int64_t)1 << 61), "Q1 the entry carries id, handler and deadline = clock + delay");
   /* Q2 */ __CPROVER_assert(G_ins_calls == 1 && G_ins_e == &e && G_map_key == id && G_map_slot == &e && G_wheel_locks == 1, "Q2 under the wheel lock the entry is inserted once and registered under its id (cancel/reschedule find it)");
-  /* Q3 */ __CPROVER_assert(G_ins_delay >= e.deadline - L - tick, "Q3 not early: the delay used for the bucket computation is measured from the wheel's time base (>= deadline - lastAdvanceTime - tick)");
+  /* Q3 */ __CPROVER_assert(G_ins_delay >= e.deadline - L - tick || delay <= tick, "Q3 not early: the delay used for the bucket computation is measured from the wheel's time base (>= deadline - lastAdvanceTime - tick), unless the timer is due within one tick anyway");
   /* Q6 */ __CPROVER_assert(G_ins_delay <= e.deadline - L, "Q6 never dropped: the delay used is not beyond the real distance to the deadline");
 }
 
@@ -32,7 +33,7 @@ void h_reschedule(void)
   bool r = TimingWheel_rescheduleLocked(&W, &e, delay);
   IORA_CANARY("h_reschedule: returns");
   /* Q4 */ __CPROVER_assert(r && G_ins_calls == 1 && G_ins_e == &e && e.deadline - delay >= L && e.deadline - delay <= ((int64_t)1 << 61), "Q4 reschedule re-inserts the entry once with deadline = clock + newDelay and reports success");
-  /* Q5 */ __CPROVER_assert(G_ins_delay >= e.deadline - L - tick, "Q5 not early: the delay used for the bucket computation is measured from the wheel's time base (>= deadline - lastAdvanceTime - tick)");
+  /* Q5 */ __CPROVER_assert(G_ins_delay >= e.deadline - L - tick || delay <= tick, "Q5 not early: the delay used for the bucket computation is measured from the wheel's time base (>= deadline - lastAdvanceTime - tick), unless the timer is due within one tick anyway");
   /* Q7 */ __CPROVER_assert(G_ins_delay <= e.deadline - L, "Q7 never dropped: the delay used is not beyond the real distance to the deadline");
 }
 
@@ -41,11 +42,11 @@ void h_reschedule(void)
 void h_search(void)
 {
   int64_t STALL = nondet_i64(), DELAY = nondet_i64();
-  __CPROVER_assume(STALL >= 100 && STALL <= 200 && DELAY >= 0 && DELAY <= 150);    /* a clear witness: the tick thread is >= 10 ticks behind */
+  __CPROVER_assume(STALL >= 100 && STALL <= 200 && DELAY >= 30 && DELAY + 20 <= STALL);    /* a clear witness: the tick thread is >= 10 ticks behind and its catch-up sweeps past the entry */
   TimingWheel W; TimerEntry e; IORA_TRUE = 1; G_alloc_entry = &e; G_ins_calls = 0;
   W._tickDuration = 10; W._lastAdvanceTime = 1000; G_clock_floor = 1000 + STALL;
   TimingWheel_scheduleLocked(&W, 1, DELAY, (void *)&W);
   __CPROVER_assume(e.deadline == 1000 + STALL + DELAY);       /* the clock read is exactly lastAdvanceTime + STALL */
-  __CPROVER_assert(G_ins_delay >= e.deadline - 1000 - 10, "Q3 not early: the delay used for the bucket computation is measured from the wheel's time base (>= deadline - lastAdvanceTime - tick)");
+  __CPROVER_assert(G_ins_delay >= e.deadline - 1000 - 10 || DELAY <= 10, "Q3 not early: the delay used for the bucket computation is measured from the wheel's time base (>= deadline - lastAdvanceTime - tick), unless the timer is due within one tick anyway");
 }
 #endif
